@@ -143,6 +143,13 @@ def run_case(case: Dict[str, Any], ctx) -> None:
     req_in = root_case or case["seed"] % 3 != 0 or not any(p_.requires_grad for p_ in m.parameters())
     if not req_in:
         ctx.count("form:inputs-without-requires_grad")
+    if not root_case and case["seed"] % 5 == 3:
+        # some parameters FROZEN (a pretrained trunk): the remaining gradients still pass the backward quantisers
+        plist_ = list(m.parameters())
+        for j_, p_ in enumerate(plist_[1:]):
+            if (case["seed"] >> (j_ % 20)) & 1:
+                p_.requires_grad_(False)
+        ctx.count("form:module-with-frozen-parameters")
     has_q = root_case or any(o["op"] in ("linear_f", "nn_linear", "uu_linear", "U_linear", "sdpa") for o in prog["ops"])
     try:
         sim = simulate_fp8(m) if fmt_name == "fp8" else simulate_format(m, fwd, bwd)
@@ -167,8 +174,8 @@ def run_case(case: Dict[str, Any], ctx) -> None:
             outs_u = list(out_u) if isinstance(out_u, (tuple, list)) else [out_u]
             g = torch.Generator().manual_seed(case["seed"] + 9)
             ups = [torch.randn(y.shape, generator=g, dtype=y.dtype) for y in outs_u]
-            names = [f"input{i}" for i, t in enumerate(ins_u) if t.is_floating_point() and req_in] + sorted(params)
-            leaves_u = [t for t in ins_u if t.is_floating_point() and req_in] + [params[k] for k in sorted(params)]
+            names = [f"input{i}" for i, t in enumerate(ins_u) if t.is_floating_point() and req_in] + [k for k in sorted(params) if params[k].requires_grad]
+            leaves_u = [t for t in ins_u if t.is_floating_point() and req_in] + [params[k] for k in sorted(params) if params[k].requires_grad]
             gu = torch.autograd.grad(outs_u, leaves_u, ups, allow_unused=True)
         except Exception as e:
             feat = [f for f in feats if f in ("F.linear:kw", "sdpa:mask-pos", "F.linear:none2")]
@@ -204,7 +211,7 @@ def run_case(case: Dict[str, Any], ctx) -> None:
         else:
             mod_attrs = {md["name"]: {"constraint": "to_output_scale"} for md in prog["mods"] if md["type"] == "uu.Linear"}
             outs_r, _ = progs.interpret(prog, pref, ins_r, "plain", quant=quant, mod_attrs=mod_attrs)
-        leaves_r = [t for t in ins_r if t.is_floating_point() and req_in] + [pref[k] for k in sorted(params)]
+        leaves_r = [t for t in ins_r if t.is_floating_point() and req_in] + [pref[k] for k in sorted(params) if params[k].requires_grad]
         gr = torch.autograd.grad(outs_r, leaves_r, ups, allow_unused=True)
     if root_case:
         ctx.count("root-layer:checked")
@@ -240,7 +247,7 @@ def run_case(case: Dict[str, Any], ctx) -> None:
             with QuantLog() as qlog2, pinned_randint(shape_keyed_randint):
                 out_2 = sim(*ins_2)
                 outs_2 = list(out_2) if isinstance(out_2, (tuple, list)) else [out_2]
-                leaves_2 = [t for t in ins_2 if t.is_floating_point() and req_in] + [params[k] for k in sorted(params)]
+                leaves_2 = [t for t in ins_2 if t.is_floating_point() and req_in] + [params[k] for k in sorted(params) if params[k].requires_grad]
                 g2 = torch.autograd.grad(outs_2, leaves_2, ups, allow_unused=True)
         except Exception as e:
             ctx.violation("C15:transformed-module-raises-on-a-later-call:" + exc_key(e), repr(e), source=src, fmt=fmt_name)
@@ -279,7 +286,7 @@ def run_case(case: Dict[str, Any], ctx) -> None:
         out_o = m(*ins_o)
         outs_o = list(out_o) if isinstance(out_o, (tuple, list)) else [out_o]
         po = {k: v for k, v in m.named_parameters()}
-        go = torch.autograd.grad(outs_o, [t for t in ins_o if t.is_floating_point() and req_in] + [po[k] for k in sorted(po)], ups, allow_unused=True)
+        go = torch.autograd.grad(outs_o, [t for t in ins_o if t.is_floating_point() and req_in] + [po[k] for k in sorted(po) if po[k].requires_grad], ups, allow_unused=True)
         ctx.count("lossless:bit-compared")
         same = all(bits_equal(a.detach(), b.detach()) for a, b in zip(outs_u, outs_o)) and all(
             (a is None and b is None) or (a is not None and b is not None and bits_equal(a, b)) for a, b in zip(gu, go))
